@@ -123,3 +123,120 @@ func (e *bndEngine) paramLB(p *ssa.Parameter) int64 {
 	}
 	return negInf
 }
+
+// reviewedParamBounds: accesses to a sequence parameter that the engine cannot prove, with the hand proof
+var reviewedParamBounds = map[string]string{}
+
+// selfGuardedScanners: the functions (outside the lexers) whose every access to a string / []byte / []rune
+// parameter is guarded inside the function itself. Only these are claimed: the other text scanners of the
+// handlers (stringutil.GetBeforeIndex, getCompeletePreStr, GetVarStruct, ... 27 functions, 52 sites) rely on the
+// contract 0 <= offset < len(contents) that the handlers establish before calling them (PANIC/P6 checks that
+// guard) or on relations between two scanner variables, and are NOT decided by this rule.
+var selfGuardedScanners = map[string]bool{
+	"(*check.Matcher).match":                         true,
+	"check.ToLower":                                  true,
+	"check.RuneRoles":                                true,
+	"check/common.IsSubDir":                          true,
+	"check/common.CompleteFilePathToPreStr":          true,
+	"codingconv.isUtf8":                              true,
+	"check/compiler/parser.isHexInteger":             true,
+	"check/compiler/parser.isLuajitHexInteger":       true,
+	"check/annotation/annotateparser.splitStrQuotes": true,
+}
+
+var ruleBndParams = &Rule{
+	Name:    "BND/param-sequences",
+	NeedSSA: true,
+	Text: "outside the two lexers: in every module function, every index p[k] and every slice bound of p[a:b] on a string / []byte / []rune PARAMETER p " +
+		"lies inside p — same interval analysis as BND/cursor-in-input, one function and one parameter at a time, callees opaque — for the nine scanners that guard " +
+		"their own accesses (UTF-8 sniffing, hex-number recognisers, quote splitting, the fuzzy matcher's role tables, path prefixes). A handler that indexes past a buffer " +
+		"panics, and jrpc2 does not recover: the server dies. The scanners that rely on the handlers' offset guard are not decided here",
+	Run: func(c *Ctx) []Ob {
+		var obs []Ob
+		total, proven, others, othersProven := 0, 0, 0, 0
+		for _, f := range c.ModFns() {
+			if f.Pkg == nil || f.Blocks == nil {
+				continue
+			}
+			if pp := f.Pkg.Pkg.Path(); pp == lexerPkg || pp == annLexPkg {
+				continue
+			}
+			claimed := selfGuardedScanners[fnKey(f)]
+			for _, p := range f.Params {
+				if !isSeqType(p.Type()) {
+					continue
+				}
+				used := false
+				if refs := p.Referrers(); refs != nil {
+					for _, r := range *refs {
+						switch x := r.(type) {
+						case *ssa.Index:
+							if _, isC := x.Index.(*ssa.Const); !isC && x.X == ssa.Value(p) {
+								used = true
+							}
+						case *ssa.IndexAddr:
+							if _, isC := x.Index.(*ssa.Const); !isC && x.X == ssa.Value(p) {
+								used = true
+							}
+						case *ssa.Slice:
+							if x.X == ssa.Value(p) {
+								for _, v := range []ssa.Value{x.Low, x.High} {
+									if v != nil {
+										if _, isC := v.(*ssa.Const); !isC {
+											used = true
+										}
+									}
+								}
+							}
+						}
+					}
+				}
+				if !used {
+					continue
+				}
+				e := newBndParamEngine(c, f, p)
+				stable := e.run()
+				sort.SliceStable(e.sites, func(i, j int) bool { return e.sites[i].pos < e.sites[j].pos })
+				ord := map[string]int{}
+				for _, s := range e.sites {
+					base := fmt.Sprintf("BND2:%s:%s:%s", fnKey(f), p.Name(), s.kind+":"+s.what)
+					ord[base]++
+					key := fmt.Sprintf("%s#%d", base, ord[base])
+					ok := s.ok && stable
+					if !claimed {
+						others++
+						if ok {
+							othersProven++
+						}
+						if os.Getenv("LH_BND_DUMP") != "" {
+							fmt.Fprintf(os.Stderr, "BND2-unclaimed\t%s\t%s\t%v\t%s\n", key, c.Pos(s.pos), ok, s.note)
+						}
+						continue
+					}
+					total++
+					if ok {
+						proven++
+					}
+					if os.Getenv("LH_BND_DUMP") != "" {
+						fmt.Fprintf(os.Stderr, "BND2\t%s\t%s\t%v\t%s\n", key, c.Pos(s.pos), ok, s.note)
+					}
+					switch {
+					case ok:
+						obs = append(obs, Ob{Key: key, Site: c.Pos(s.pos), Verdict: OK, Note: s.note})
+					case reviewedParamBounds[key] != "":
+						obs = append(obs, Ob{Key: key, Site: c.Pos(s.pos), Verdict: OK, Note: "not proven by the engine; reviewed: " + reviewedParamBounds[key]})
+					default:
+						obs = append(obs, Ob{Key: key, Site: c.Pos(s.pos), Verdict: VIOLATION,
+							Note: fnKey(f) + ": " + s.what + " on parameter " + p.Name() + " is not proven to stay inside it (" + s.note + ")"})
+					}
+				}
+			}
+		}
+		c.Stats["bnd2_sites"] = total
+		c.Stats["bnd2_proven"] = proven
+		c.Stats["bnd2_unclaimed_sites"] = others
+		c.Stats["bnd2_unclaimed_proven_anyway"] = othersProven
+		obs = append(obs, floor("BND/param-sequences", "accesses to sequence parameters decided", total, 24))
+		return obs
+	},
+}
